@@ -22,7 +22,7 @@ RESEND = {"claim": "claimed", "release": "released", "open": None, "allocate": "
 class LossExplore(Explore):
     configs = CONFIGS
     canonical_close = False
-    allowed = {"drop", "open", "failopen", "proc", "rx", "send", "set_code", "allocate", "input", "choose_nameplate", "choose_words", "turn"}
+    allowed = {"drop", "open", "failopen", "close", "proc", "rx", "send", "set_code", "allocate", "input", "choose_nameplate", "choose_words", "turn"}
 
     def violations(self, sim, when):
         out = []
@@ -46,9 +46,14 @@ class LossExplore(Explore):
         if when == "settled":
             for i, c in enumerate(sim.cl):
                 # interactive entry asked for the nameplate list: the request must reach the server on some connection
-                if sim.api[i]["helper"] is not None and not any("list" in cn.log for cn in sim.world.server.conns if cn.client is c):
+                if sim.api[i]["helper"] is not None and not sim.api[i]["closed"] and not any("list" in cn.log for cn in sim.world.server.conns if cn.client is c):
                     out.append(("nameplate list request never (re)issued after connecting", "%s: L=%s" % (c.name, c.state("L"))))
-        if when == "settled" and len(sim.cl) == 2:
+        if when == "settled":
+            # the closed notification is an application-visible event, too: a close() issued around a connection loss still completes
+            for i, c in enumerate(sim.cl):
+                if sim.api[i]["closed"] and not any(e[0] == "closed" for e in c.ev):
+                    out.append(("close() did not complete after connectivity returned", "%s: T=%s M=%s N=%s" % (c.name, c.state("T"), c.state("M"), c.state("N"))))
+        if when == "settled" and len(sim.cl) == 2 and not any(a["closed"] for a in sim.api):
             ready = all(sim.api[j]["code"] and (sim.modes[j] != "input" or sim.api[j]["words"]) for j in range(2))
             if ready:
                 for i, c in enumerate(sim.cl):
